@@ -4,7 +4,7 @@
 #include <validation.h>
 #include <verif_close_access.h>
 #include <verif_stubs_common.h>
-#include "phantom.h"
+#include <verif_phantom.h>
 #include <limits.h>
 
 static CBlockIndex g_base;
